@@ -36,6 +36,7 @@ func partLockOrder(c *check.Ctx, a *acc, victims []string) {
 	}
 	stepLocks = true
 	partStepThrough(c, a, victims)
+	partStepPairs(c, a, [][2]string{{"leave", "join2"}, {"leave", "leave2"}, {"lastleave", "join2"}, {"delete", "leave2"}, {"compadd-vs-leave", "join2"}})
 	stepLocks = false
 	edges, acqs := c.WS.LockGraph()
 	adj := map[string][]sut.LockEdge{}
